@@ -262,7 +262,9 @@ where
     match piece {
         // Note: In theory, `LineComment`s don't need the special newline handling, it's just included here for simplicity.
         // If performance ever becomes a bottleneck, this can be split.
-        TriviaPiece::BlockComment(c) | TriviaPiece::LineComment(c) => {
+        TriviaPiece::BlockComment(c)
+        | TriviaPiece::UnterminatedBlockComment(c)
+        | TriviaPiece::LineComment(c) => {
             record_str::<C>(
                 c.encode::<E>()?,
                 &[],
@@ -287,7 +289,9 @@ fn record_piece_lossy<E: LossyEncoder, C: CharEncoding>(
     for<'a> E::Str<'a>: CharIter,
 {
     match piece {
-        TriviaPiece::BlockComment(c) | TriviaPiece::LineComment(c) => {
+        TriviaPiece::BlockComment(c)
+        | TriviaPiece::UnterminatedBlockComment(c)
+        | TriviaPiece::LineComment(c) => {
             let (encoded, replacements) = c.encode_lossy::<E>();
             record_str::<C>(
                 encoded,
@@ -323,7 +327,9 @@ fn record_non_comment_trivia<C: CharEncoding>(
                 line_starts.push(cursor + (i + 1) * 2);
             }
         }
-        TriviaPiece::BlockComment(_) | TriviaPiece::LineComment(_) => {
+        TriviaPiece::BlockComment(_)
+        | TriviaPiece::UnterminatedBlockComment(_)
+        | TriviaPiece::LineComment(_) => {
             unreachable!("Handled by specific branch");
         }
         TriviaPiece::NonBreakingSpaces(n) => {
